@@ -13,7 +13,8 @@
      worker goroutine of node i (:142-223)
        WSetupFail i   node.setup failed: status := failed, lastError (:149-153)
        WTest i        loop test `setupSucceed && !canceled` passed (:159)
-       WSkipExec i    ... failed because of the cancel flag
+       WSkipExec i    ... failed because of the cancel flag: the command is never run and (fix ac08004, F5c) a node that
+                      is still running is labelled canceled, not finished (:224-232)
        WExecStart i   the executor's Run is entered (visible RunStart; n.cmd exists from here on)
        WDryExec i     dry run: execNode returns nil at once (:281-286)
        WExecRefused i after the deadline the executor refuses to start (expired context); WExecStart needs the deadline not passed
@@ -228,7 +229,8 @@ Definition step (s : state) (l : label) : option state :=
   | WSkipExec i =>
       match ph (nd s i) with
       | PSetup => if (i <? n) && negb (setup_fails i) && canceled s
-                  then Some (set_nd s i (with_ph (nd s i) PPost)) else None
+                  then Some (set_nd s i (with_ph (with_st (nd s i)
+                                 (match st (nd s i) with NRunning => NCancel | v => v end)) PPost)) else None
       | _ => None end
   | WExecStart i =>
       match ph (nd s i) with
